@@ -141,7 +141,12 @@ def run(ctx):
         if not ok or not m:
             ctx.broken.append(("correspondence:code-eval", "coqc on generated cases failed: " + out[-1200:]))
             return
-        for i, code in re.findall(r"\((\d+),\s*(\d+)\)", m.group(1)):
+        pairs = re.findall(r"\((\d+)(?:%nat)?,\s*(\d+)(?:%nat)?\)", m.group(1))
+        if m.group(1).strip() != "[]" and not pairs:
+            # never read an unparsable mismatch list as "no mismatch"
+            ctx.broken.append(("correspondence:code-eval", "cannot read the mismatch list: " + m.group(1)[:300]))
+            return
+        for i, code in pairs:
             r = part[int(i)]
             d = {"src": bytes.fromhex(r["src"]).decode("latin1"), "env": r["env"], "go_tree": r["tree"][:300],
                  "go": [r["val"], r["err"], r["panic"], r["env_out"]], "ref": [r.get("ref_val"), r.get("ref_err"), r.get("ref_env")]}
